@@ -148,7 +148,8 @@ void World::shadow_apply(std::vector<Cand> &cs, const Input &in, bool fork) {
 void World::shadow_fork() {
 	if (!shadow_enabled || shadow_undecidable) return;
 	if (snap_cands.empty()) { shadow_give_up("no snapshot of the reference model"); return; }
-	for (auto &cl : clients) if (cl.faulty) { shadow_give_up("impaired connections take part"); return; }
+	// a connection whose client has gone is only waiting to be released; one that is alive but cannot be served may have its own requests aborted half way
+	for (auto &cl : clients) if (cl.faulty && !cl.client_closed && !cl.daemon_closed) { shadow_give_up("impaired connections take part"); return; }
 	for (auto &c : snap_cands) for (auto &d : c.m.decisions) if (d.state == 0) { shadow_give_up("undecided request at the start of the interrupted event: " + d.what); return; }
 	std::vector<Cand> cs = snap_cands;
 	shadow_gets = snap_gets;
